@@ -3,10 +3,12 @@ import vlib
 from props import solverstream as ss, tracecheck as tc, antie
 
 THEOREMS = ["C14_valid", "C14_never_error", "C14_hard_independent_of_soft", "C14_accept_oracle_sound", "C14_accept_step_meaning",
-            "C14_analysis_keeps_earlier_solution"]
+            "C14_analysis_keeps_earlier_solution", "C14_soft_keeps_earlier_decisions", "C14_soft_keeps_assignments"]
 CHECKER = ("coqc Props/C14.v + Print Assumptions; harness solve_cases with soft-requirement lists: hook logs -> extracted "
            "check_sat_log_lenient; o_valid with the documented exemption; verdict vs hard-problem reference (never an error); "
-           "extracted o_soft_expect (clear-cut accept / reject steps) -> accepted soft solvables must be in the solution")
+           "extracted o_soft_expect (clear-cut accept / reject steps) -> accepted soft solvables must be in the solution; hook logs -> "
+           "extracted check_analyses (model of Solver::analyze incl. the clamp of the backjump level) and soft_keep (nothing decided "
+           "before a soft requirement is tried is undone later)")
 
 
 def soft_oracle(recs):
@@ -63,6 +65,10 @@ def run(res, tier, seed, replay):
                           f"learnt clause, the number of pops, the backjump level (model: never below the level the soft run started at, "
                           f"theorem C14_analysis_keeps_earlier_solution) or the asserted literal differs from the model of "
                           f"Solver::analyze: {r['an']}", dict(ss.replay_obj(r), analyses=r["an"]))
+        if not antie.ok_softkeep(r):
+            res.tie_break(f"an assignment made before a soft requirement was tried has been undone later in the run "
+                          f"(extracted soft_keep rejects the log; theorem C14_soft_keeps_earlier_decisions no longer applies) in "
+                          f"{r['stream']}: verdict {r.get('softkeep')}", dict(tc.trace_replay(r), soft_keep=r.get("softkeep")))
     expect = soft_oracle(recs)
     applicable, accepted_checked, known_poison = 0, 0, 0
     for ridx, r in enumerate(recs):
@@ -107,6 +113,7 @@ def run(res, tier, seed, replay):
     res.rule = ("problems with soft-requirement lists (0-3 entries incl. duplicates, other versions of installed packages, excluded, "
                 "locked-out, Unknown-dependency and never-fetched solvables) over classes small/conflict/greedy; non-trivial = Ok "
                 "outcome with >= 2 distinct soft requirements; 'applicable' = every soft step is clear-cut for the verified oracle")
+    res.extra.update(antie.stats(recs))
     res.extra.update({"accept_oracle_applicable": applicable, "accepted_soft_checked": accepted_checked,
                       "poisoned_cases": known_poison, "hangs": len(hangs)}, **tc.stats(recs))
     return res.finish(CHECKER, vlib.TRUSTED_BASE,
